@@ -51,6 +51,15 @@ def run_filtered_close(variant, timeout=2.0):
 
 
 def run_close_after(args, k, endless, finite_input=b'', timeout=2.0, matching_lines=None, pad=0):
+    """a run that is still going after `timeout` is repeated once with 10 s: a busy machine is slow, a process that
+    did not notice the closed pipe never ends"""
+    res = _run_close_after(args, k, endless, finite_input, timeout, matching_lines, pad)
+    if res['rc'] is None and timeout < 10:
+        res = _run_close_after(args, k, endless, finite_input, 10.0, matching_lines, pad)
+    return res
+
+
+def _run_close_after(args, k, endless, finite_input=b'', timeout=2.0, matching_lines=None, pad=0):
     """start agrind, read k bytes of stdout, close it; keep feeding stdin (endless) or feed finite input; returns dict"""
     p = subprocess.Popen([aglib.AGRIND] + args, stdin=subprocess.PIPE, stdout=subprocess.PIPE, stderr=subprocess.PIPE, env=aglib.ENV)
     stop = threading.Event()
@@ -153,6 +162,8 @@ def explore(ctx):
     for variant in ('A', 'B'):
         for rep in range(2 if quick else 10):
             res = run_filtered_close(variant)
+            if res['rc'] is None and variant == 'A':
+                res = run_filtered_close(variant, timeout=10.0)
             evaluations += 1
             nontrivial += 1
             if res['rc'] is None:
